@@ -261,6 +261,33 @@ func gen(r *sim.Rng, tier string) *sim.Case {
 	if r.Pct(8) {
 		c.Params["twin"] = 1 // a second list is used alternately by every thread
 	}
+	if r.Pct(3) {
+		// a writer descheduled in the middle of a multi-write update, for as long as the others
+		// care to wait: one pusher is stalled right after its k-th write while another pusher
+		// spins through a long budget and a third thread pops and reads the length
+		c.Params["twin"] = 0
+		np := r.Range(1, 2)
+		c.Programs = [][]sim.Op{
+			{{Op: "Push", V: 1<<8 | 1}},
+			{{Op: "Push", V: 2<<8 | 1}},
+			{{Op: []string{"Pop", "PopWait"}[r.N(2)], D: 5}, {Op: "Len"}, {Op: "Pop"}, {Op: "Len"}},
+		}
+		if np == 2 {
+			c.Programs[0] = append(c.Programs[0], sim.Op{Op: "Push", V: 1<<8 | 2})
+			c.Programs[1] = append([]sim.Op{{Op: "Pop"}}, c.Programs[1]...)
+		}
+		probe = 3
+		c.Programs = append(c.Programs, []sim.Op{{Op: "Len"}, {Op: "Drain"}})
+		c.Sched = enga.GenSched(r, 3, 8, probe, true)
+		c.Sched.SpinBurn = []int{150, 300, 600, 1100}[r.N(4)]
+		c.Sched.MaxSteps = 40000
+		c.Sched.Stalls = []sim.Stall{{T: r.N(2), At: 0, For: -1, AfterW: r.Range(1, 3)}}
+		if r.Bool() {
+			c.Sched.FreezeAt = -1
+		} else {
+			c.Sched.FreezeAt = r.Range(c.Sched.SpinBurn, c.Sched.SpinBurn*5)
+		}
+	}
 	c.Params["elem"] = r.Pick(6, 2, 3, 2, 1) // element type: int, string, three-word struct, pointer, interface
 	c.EnvSeed = r.U64() >> 12
 	return c
